@@ -683,6 +683,7 @@ def fault(ctx):
     # --- fault()
     ffn = ctx.fn(SF, 'StackingFault.fault')
     for tag, ci, kw in (('fractions of a1, a2 and out of plane', 2, dict(a1=sp.Symbol('f1'), a2=sp.Symbol('f2'), outofplane=sp.Symbol('f3'))), ('a1 only', 0, dict(a1=sp.Symbol('f1'))),
+                        ('a2 only', 1, dict(a2=sp.Symbol('f2'))), ('out of plane only', 2, dict(outofplane=sp.Symbol('f3'))), ('out of plane only, cut along b', 1, dict(outofplane=sp.Symbol('f3'))),
                         ('explicit shift vector', 1, dict(faultshift=symarray('fs', (3,), real=True))), ('no shift', 2, {})):
         log = []
         P = symarray('p', (4, 3), real=True)
